@@ -1,39 +1,17 @@
-"""C08 -- merge command and git driver: exit status, output file, behaviour on failure.
-
-Proof part (Tier E): every control-flow path of the real main_merge and mergedriver.main, including the
-exceptional edge of every call, against path postconditions (contracts/kit_e.py).
-Bounded part: fault injection on the real mains (checks/c08_bounded.py) -- also the replay of a failed
-path obligation against the real code."""
-import importlib
-
-from . import common
+"""C08 -- merge command and git driver: exit status, output file, behaviour on failure (Tier E proof + fault-injection stand-in)."""
+from . import common, tier_e
 
 LEVEL = 'proof'
 
 
 def run(res):
     from contracts import kit_e
-    failed = []
-    for q, tab, post in (('nbdime.nbmergeapp.main_merge', kit_e.MAIN_MERGE, kit_e.MAIN_MERGE_POST),
-                         ('nbdime.vcs.git.mergedriver.main', kit_e.MERGEDRIVER, kit_e.MERGEDRIVER_POST)):
-        f = common.prove_paths(res, q, tab, post)
-        failed += f or []
-    nviol = len(res.violations)
-    try:
-        b = importlib.import_module('checks.c08_bounded')
-    except ImportError:
-        b = None
-    if b is not None:
-        b.run_bounded(res)
-        res.coverage['bounded_note'] = 'fault-injection run of the real mains is a BOUNDED cross-check and the replay harness of the path proof; never counted as proved'
-    witness = None
-    if failed and len(res.violations) > nviol:
-        witness = res.violations[nviol]['what'][:300]
-    common.report_path_failures(res, failed, witness)
-    res.coverage['explanation'] = ('all %s control-flow paths of main_merge and mergedriver.main (exceptional edge after every call) satisfy: status 0 iff no conflicted '
-                                   'decision; merge_notebooks gets the three notebooks read from the three paths; no output effect before merge_notebooks returned; one complete '
-                                   'nbformat.write of the returned notebook to --out/stdout; no handler swallows an exception; the driver sets out=local, decisions=False and returns '
-                                   'main_merge\'s status' % res.coverage.get('paths'))
+    tier_e.run(res, [('nbdime.nbmergeapp.main_merge', kit_e.MAIN_MERGE, kit_e.MAIN_MERGE_POST),
+                     ('nbdime.vcs.git.mergedriver.main', kit_e.MERGEDRIVER, kit_e.MERGEDRIVER_POST)], 'c08_bounded',
+               'Every control-flow path of the real main_merge and mergedriver.main (exceptional edge after every call) satisfies: status 0 iff no conflicted decision; '
+               'merge_notebooks gets the three notebooks read from args.base/local/remote; no output effect before merge_notebooks returned; exactly one complete '
+               'nbformat.write of the returned notebook to --out/stdout; no handler swallows an exception; the driver sets out=local, decisions=False and returns '
+               'main_merge\'s status unchanged.')
 
 
 def replay(path):
